@@ -1,13 +1,31 @@
 package lsp
 
-// Overlay test for C07 (never added to /repo): drives getRangeForViolation / convertReportToDiagnostics with
-// the report locations listed in $VERIF_C07_IN and writes the LSP ranges to $VERIF_C07_OUT.
+// Overlay tests for C07 (never added to /repo):
+//   TestVerifC07      drives getRangeForViolation / convertReportToDiagnostics with the report locations listed in
+//                     $VERIF_C07_IN and writes the LSP ranges to $VERIF_C07_OUT;
+//   TestVerifC07Shift the k-shift relation for the server's diagnostics, end to end (see below).
 
 import (
+	"context"
 	"encoding/json"
+	"fmt"
 	"os"
+	"regexp"
+	"slices"
+	"sort"
+	"strconv"
+	"strings"
+	"sync"
 	"testing"
 
+	"gopkg.in/yaml.v3"
+
+	"github.com/open-policy-agent/opa/v1/ast"
+	"github.com/open-policy-agent/opa/v1/storage"
+
+	"github.com/styrainc/regal/internal/lsp/cache"
+	"github.com/styrainc/regal/pkg/config"
+	"github.com/styrainc/regal/pkg/linter"
 	"github.com/styrainc/regal/pkg/report"
 )
 
@@ -53,6 +71,432 @@ func TestVerifC07(t *testing.T) {
 		}
 	}
 	out, _ := json.Marshal(cases)
+	if err := os.WriteFile(outPath, out, 0o644); err != nil {
+		t.Fatal(err)
+	}
+}
+
+// ---------------------------------------------------------------------------------------------------------
+// End-to-end k-shift relation for the diagnostics of the language server (C07's observe_at includes them):
+// a workspace is loaded and linted as a whole (what the server does at start-up), then ONE file is replaced
+// by its k-shifted version through the functions the server runs for every edit — updateParse,
+// updateFileDiagnostics (non-aggregate rules, exports the file's aggregates and ignore directives into the
+// cache), updateAllDiagnostics(aggregatesReportOnly) — and the file's cached diagnostics must be the ones
+// from before the edit with every line moved by k: nothing added, nothing lost, nothing else changed; the
+// diagnostics of the other files must not change at all. Workspaces come from $VERIF_C07_SHIFT_IN.
+
+type shiftWS struct {
+	Name   string            `json:"name"`
+	Files  map[string]string `json:"files"`  // path relative to the workspace root -> content
+	Config string            `json:"config"` // YAML user config, "" = none
+	Ks     []int             `json:"ks"`
+	Edit   []string          `json:"edit"` // files to edit, in this order (default: all, sorted)
+}
+
+type shiftDiag struct {
+	Code     string  `json:"code"`
+	Source   string  `json:"source"`
+	Severity uint    `json:"severity"`
+	Message  string  `json:"message"`
+	Range    [4]uint `json:"range"`
+}
+
+type shiftIssue struct {
+	Kind     string            `json:"kind"` // missing-after-edit | extra-after-edit | other-file-changed | outside-file | error
+	File     string            `json:"file"`
+	K        int               `json:"k"`
+	Diag     *shiftDiag        `json:"diag,omitempty"`
+	Other    string            `json:"other,omitempty"`
+	Err      string            `json:"err,omitempty"`
+	Files    map[string]string `json:"files"` // the (minimised) workspace that shows it
+	Config   string            `json:"config"`
+	Before   []shiftDiag       `json:"before"`
+	After    []shiftDiag       `json:"after"`
+	Minimal  bool              `json:"minimised"`
+	Attempts int               `json:"attempts"`
+}
+
+type shiftResult struct {
+	Name      string                 `json:"name"`
+	Skipped   string                 `json:"skipped,omitempty"`
+	Baseline  map[string][]shiftDiag `json:"baseline"`
+	Edits     int                    `json:"edits"`
+	Compared  int                    `json:"compared"` // (diagnostic, edit) pairs
+	ByCode    map[string]int         `json:"by_code"`
+	Aggregate []string               `json:"aggregate_rules"`
+	Issues    []shiftIssue           `json:"issues"`
+}
+
+const shiftRoot = "file:///ws"
+
+// exempt for the reasons given in notes/C07.md: the verdicts are about the formatting / the length of the file
+var shiftExempt = map[string]bool{"opa-fmt": true, "file-length": true}
+
+var shiftDescQuotesRows = map[string]bool{"duplicate-rule": true}
+
+var shiftDecRE = regexp.MustCompile(`[0-9]+`)
+
+func shiftSnapshot(c *cache.Cache, uri string) []shiftDiag {
+	ds, _ := c.GetFileDiagnostics(uri)
+	res := []shiftDiag{}
+	for _, d := range ds {
+		if shiftExempt[d.Code] {
+			continue
+		}
+		res = append(res, shiftDiag{Code: d.Code, Source: d.Source, Severity: d.Severity, Message: d.Message,
+			Range: [4]uint{d.Range.Start.Line, d.Range.Start.Character, d.Range.End.Line, d.Range.End.Character}})
+	}
+	sort.Slice(res, func(i, j int) bool { return fmt.Sprint(res[i]) < fmt.Sprint(res[j]) })
+	return res
+}
+
+func shiftMoved(ds []shiftDiag, k int) []shiftDiag {
+	res := make([]shiftDiag, len(ds))
+	for i, d := range ds {
+		d.Range[0] += uint(k)
+		d.Range[2] += uint(k)
+		if shiftDescQuotesRows[d.Code] {
+			d.Message = shiftDecRE.ReplaceAllStringFunc(d.Message, func(s string) string {
+				n, err := strconv.Atoi(s)
+				if err != nil {
+					return s
+				}
+				return strconv.Itoa(n + k)
+			})
+		}
+		res[i] = d
+	}
+	sort.Slice(res, func(i, j int) bool { return fmt.Sprint(res[i]) < fmt.Sprint(res[j]) })
+	return res
+}
+
+// multiset difference a \ b
+func shiftMinus(a, b []shiftDiag) []shiftDiag {
+	cnt := map[shiftDiag]int{}
+	for _, d := range b {
+		cnt[d]++
+	}
+	var res []shiftDiag
+	for _, d := range a {
+		if cnt[d] > 0 {
+			cnt[d]--
+		} else {
+			res = append(res, d)
+		}
+	}
+	return res
+}
+
+type shiftSession struct {
+	c      *cache.Cache
+	store  storage.Store
+	cfg    *config.Config
+	all    []string
+	agg    []string
+	nonAgg []string
+}
+
+// shiftLoad: what the server does when a workspace is opened — every file parsed, then one lint of everything
+// that also fills the aggregate / ignore-directive caches
+func shiftLoad(ctx context.Context, files map[string]string, cfgYAML string) (*shiftSession, string, error) {
+	s := &shiftSession{c: cache.NewCache(), store: NewRegalStore()}
+	if cfgYAML != "" {
+		var cfg config.Config
+		if err := yaml.Unmarshal([]byte(cfgYAML), &cfg); err != nil {
+			return nil, "", fmt.Errorf("config: %w", err)
+		}
+		s.cfg = &cfg
+	}
+	l := linter.NewLinter()
+	if s.cfg != nil {
+		l = l.WithUserConfig(*s.cfg)
+	}
+	var err error
+	if s.all, err = l.DetermineEnabledRules(ctx); err != nil {
+		return nil, "", err
+	}
+	if s.agg, err = l.DetermineEnabledAggregateRules(ctx); err != nil {
+		return nil, "", err
+	}
+	s.nonAgg = slices.DeleteFunc(slices.Clone(s.all), func(r string) bool { return slices.Contains(s.agg, r) })
+	var names []string
+	for n := range files {
+		names = append(names, n)
+	}
+	sort.Strings(names)
+	for _, n := range names {
+		uri := shiftRoot + "/" + n
+		s.c.SetFileContents(uri, files[n])
+		ok, err := updateParse(ctx, s.c, s.store, uri, nil, ast.RegoV1)
+		if err != nil {
+			return nil, "", err
+		}
+		if !ok {
+			return nil, n + " does not parse", nil
+		}
+	}
+	if err := updateAllDiagnostics(ctx, s.c, s.cfg, shiftRoot, true, false, s.all); err != nil {
+		return nil, "", err
+	}
+	return s, "", nil
+}
+
+// shiftEdit: what the server does for one textDocument/didChange of `name`
+func (s *shiftSession) shiftEdit(ctx context.Context, name, content string) (string, error) {
+	uri := shiftRoot + "/" + name
+	s.c.SetFileContents(uri, content)
+	ok, err := updateParse(ctx, s.c, s.store, uri, nil, ast.RegoV1)
+	if err != nil {
+		return "", err
+	}
+	if !ok {
+		return "shifted text does not parse", nil
+	}
+	if err := updateFileDiagnostics(ctx, s.c, s.cfg, uri, shiftRoot, s.nonAgg); err != nil {
+		return "", err
+	}
+	return "", updateAllDiagnostics(ctx, s.c, s.cfg, shiftRoot, false, true, s.agg)
+}
+
+// shiftCheckEdit runs load + ONE edit on a fresh cache and returns the issues of that edit
+// (used for minimisation; the main loop chains the edits on one cache like a real session)
+func shiftCheckOne(ctx context.Context, files map[string]string, cfg, name string, k int) []shiftIssue {
+	s, skip, err := shiftLoad(ctx, files, cfg)
+	if err != nil || skip != "" {
+		return nil
+	}
+	base := map[string][]shiftDiag{}
+	for n := range files {
+		base[n] = shiftSnapshot(s.c, shiftRoot+"/"+n)
+	}
+	base[""] = shiftSnapshot(s.c, shiftRoot)
+	skip, err = s.shiftEdit(ctx, name, strings.Repeat("\n", k)+files[name])
+	if err != nil || skip != "" {
+		return nil
+	}
+	return shiftCompare(s, files, base, name, k)
+}
+
+func shiftCompare(s *shiftSession, files map[string]string, base map[string][]shiftDiag, name string, k int) []shiftIssue {
+	var res []shiftIssue
+	uri := shiftRoot + "/" + name
+	after := shiftSnapshot(s.c, uri)
+	want := shiftMoved(base[name], k)
+	for _, d := range shiftMinus(want, after) {
+		d := d
+		res = append(res, shiftIssue{Kind: "missing-after-edit", File: name, K: k, Diag: &d, Before: base[name], After: after})
+	}
+	for _, d := range shiftMinus(after, want) {
+		d := d
+		res = append(res, shiftIssue{Kind: "extra-after-edit", File: name, K: k, Diag: &d, Before: base[name], After: after})
+	}
+	content, _ := s.c.GetFileContents(uri)
+	nLines := uint(len(strings.Split(content, "\n")))
+	for _, d := range after {
+		if d.Range[0] >= nLines || d.Range[2] >= nLines || d.Range[2] < d.Range[0] || (d.Range[2] == d.Range[0] && d.Range[3] < d.Range[1]) {
+			d := d
+			res = append(res, shiftIssue{Kind: "outside-file", File: name, K: k, Diag: &d, Before: base[name], After: after})
+		}
+	}
+	var others []string
+	for n := range files {
+		if n != name {
+			others = append(others, n)
+		}
+	}
+	others = append(others, "")
+	sort.Strings(others)
+	for _, n := range others {
+		u := shiftRoot
+		if n != "" {
+			u += "/" + n
+		}
+		now := shiftSnapshot(s.c, u)
+		diff := append(shiftMinus(base[n], now), shiftMinus(now, base[n])...)
+		if len(diff) > 0 {
+			d := diff[0]
+			res = append(res, shiftIssue{Kind: "other-file-changed", File: name, K: k, Other: n, Diag: &d, Before: base[n], After: now})
+		}
+	}
+	return res
+}
+
+func shiftSameIssue(a shiftIssue, bs []shiftIssue) bool {
+	for _, b := range bs {
+		if a.Kind == b.Kind && a.File == b.File && a.Other == b.Other && a.Diag != nil && b.Diag != nil && a.Diag.Code == b.Diag.Code {
+			return true
+		}
+	}
+	return false
+}
+
+// shiftMinimise shrinks the workspace while the same kind of issue (kind, rule, edited file) persists for this k:
+// other files dropped, then line chunks of every file
+func shiftMinimise(ctx context.Context, is shiftIssue, files map[string]string, cfg string, budget int) shiftIssue {
+	cur := map[string]string{}
+	for n, t := range files {
+		cur[n] = t
+	}
+	attempts := 0
+	holds := func(fs map[string]string) bool {
+		if attempts >= budget {
+			return false
+		}
+		attempts++
+		return shiftSameIssue(is, shiftCheckOne(ctx, fs, cfg, is.File, is.K))
+	}
+	if !holds(cur) {
+		// needs the history of earlier edits of the session: reported as found
+		is.Files, is.Config, is.Attempts = files, cfg, attempts
+		return is
+	}
+	var names []string
+	for n := range cur {
+		names = append(names, n)
+	}
+	sort.Strings(names)
+	for _, n := range names {
+		if n == is.File || n == is.Other {
+			continue
+		}
+		cand := map[string]string{}
+		for m, t := range cur {
+			if m != n {
+				cand[m] = t
+			}
+		}
+		if holds(cand) {
+			cur = cand
+		}
+	}
+	names = names[:0]
+	for n := range cur {
+		names = append(names, n)
+	}
+	sort.Strings(names)
+	for _, n := range names {
+		lines := strings.Split(cur[n], "\n")
+		for chunk := len(lines) / 2; chunk >= 1; chunk /= 2 {
+			for i := 0; i+chunk <= len(lines); {
+				cl := append(append([]string{}, lines[:i]...), lines[i+chunk:]...)
+				cand := map[string]string{}
+				for m, t := range cur {
+					cand[m] = t
+				}
+				cand[n] = strings.Join(cl, "\n")
+				if len(cl) > 0 && holds(cand) {
+					lines = cl
+					cur = cand
+				} else {
+					i += chunk
+				}
+			}
+		}
+	}
+	for _, j := range shiftCheckOne(ctx, cur, cfg, is.File, is.K) {
+		if shiftSameIssue(is, []shiftIssue{j}) {
+			j.Files, j.Config, j.Minimal, j.Attempts = cur, cfg, true, attempts
+			return j
+		}
+	}
+	is.Files, is.Config, is.Attempts = files, cfg, attempts
+	return is
+}
+
+func shiftRunWS(ctx context.Context, ws shiftWS) shiftResult {
+	res := shiftResult{Name: ws.Name, Baseline: map[string][]shiftDiag{}, ByCode: map[string]int{}}
+	fail := func(name string, k int, err error) {
+		res.Issues = append(res.Issues, shiftIssue{Kind: "error", File: name, K: k, Err: err.Error(), Files: ws.Files, Config: ws.Config})
+	}
+	s, skip, err := shiftLoad(ctx, ws.Files, ws.Config)
+	if err != nil {
+		fail("", 0, err)
+		return res
+	}
+	if skip != "" {
+		res.Skipped = skip
+		return res
+	}
+	res.Aggregate = s.agg
+	for n := range ws.Files {
+		res.Baseline[n] = shiftSnapshot(s.c, shiftRoot+"/"+n)
+		for _, d := range res.Baseline[n] {
+			res.ByCode[d.Code]++
+		}
+	}
+	res.Baseline[""] = shiftSnapshot(s.c, shiftRoot)
+	edit := ws.Edit
+	if len(edit) == 0 {
+		for n := range ws.Files {
+			edit = append(edit, n)
+		}
+		sort.Strings(edit)
+	}
+	seen := map[string]bool{}
+	minimised := 0
+	for _, name := range edit {
+		// one session: the edits follow each other on the same cache; the last one restores the original text
+		for _, k := range append(append([]int{}, ws.Ks...), 0) {
+			skip, err := s.shiftEdit(ctx, name, strings.Repeat("\n", k)+ws.Files[name])
+			if err != nil {
+				fail(name, k, err)
+				return res
+			}
+			if skip != "" {
+				continue
+			}
+			res.Edits++
+			res.Compared += len(res.Baseline[name])
+			for _, is := range shiftCompare(s, ws.Files, res.Baseline, name, k) {
+				code := ""
+				if is.Diag != nil {
+					code = is.Diag.Code
+				}
+				sig := is.Kind + "|" + code
+				if seen[sig] {
+					continue
+				}
+				seen[sig] = true
+				if minimised < 2 && is.Kind != "error" {
+					minimised++
+					is = shiftMinimise(ctx, is, ws.Files, ws.Config, 40)
+				} else {
+					is.Files, is.Config = ws.Files, ws.Config
+				}
+				res.Issues = append(res.Issues, is)
+			}
+		}
+	}
+	return res
+}
+
+func TestVerifC07Shift(t *testing.T) {
+	inPath, outPath := os.Getenv("VERIF_C07_SHIFT_IN"), os.Getenv("VERIF_C07_SHIFT_OUT")
+	if inPath == "" {
+		t.Skip("no input")
+	}
+	bs, err := os.ReadFile(inPath)
+	if err != nil {
+		t.Fatal(err)
+	}
+	var wss []shiftWS
+	if err := json.Unmarshal(bs, &wss); err != nil {
+		t.Fatal(err)
+	}
+	results := make([]shiftResult, len(wss))
+	var wg sync.WaitGroup
+	sem := make(chan struct{}, 6)
+	for i := range wss {
+		wg.Add(1)
+		sem <- struct{}{}
+		go func(i int) {
+			defer wg.Done()
+			defer func() { <-sem }()
+			results[i] = shiftRunWS(context.Background(), wss[i])
+		}(i)
+	}
+	wg.Wait()
+	out, _ := json.Marshal(results)
 	if err := os.WriteFile(outPath, out, 0o644); err != nil {
 		t.Fatal(err)
 	}
